@@ -107,7 +107,7 @@ pub fn run(ctx: &Ctx) {
     *ctx.run.rule.lock().unwrap() = "repeat-rich inputs (every single string over {a,b}^<=n and {a,b,c}^<=n: all unary, periodic and nested-period strings occur; pairs of strings; multi-scalar units) x min_repetitions 1..=6 x min_substring_length 1..=6 x {r, r+w, r+x, r+i, r+e} and the same inputs without r; oracle on the regex-syntax AST: no counted repetition without r; with r every {n}/{m,n} has upper bound > min_repetitions and an operand of minimum width >= min_substring_length; non-trivial as in C01; distinct by hash".into();
     let with_r = [R, R | W, R | X, R | I, R | E];
     let mut blocks = vec![];
-    if !thorough {
+    {
         blocks.push(Block::new(crate::props::c05::u_rep_single(&["a", "b"], 12), grid(&[R], 6), "r x 6x6 thresholds"));
         blocks.push(Block::new(crate::props::c05::u_rep_single(&["a", "b"], 8), grid(&[R | W, R | X, R | I, R | E], 4), "{r+w, r+x, r+i, r+e} x 4x4 thresholds"));
         blocks.push(Block::new(crate::props::c05::u_rep_single(&["a", "b", "c"], 6), grid(&[R], 3), "r x 3x3 thresholds"));
@@ -122,7 +122,8 @@ pub fn run(ctx: &Ctx) {
         blocks.push(Block::new(u_nested_rep(), grid(&[R], 3), "r x 3x3 thresholds"));
         blocks.push(Block::new(crate::props::c05::u_rep_single(&["a", "b"], 9), grid(&[0, X, I], 3), "NO r: {{}, x, i} x 3x3 thresholds (thresholds alone must not switch the conversion on)"));
         blocks.push(Block::new(u_kind_triples(), vec![Cfg::new(0), Cfg::new(R), Cfg::with(R, 1, 2), Cfg::with(R | X, 2, 1)], "{}, r, r(1,2), r+x(2,1)"));
-    } else {
+    }
+    if thorough {
         blocks.push(Block::new(crate::props::c05::u_rep_single(&["a", "b"], 14), grid(&[R], 6), "r x 6x6 thresholds"));
         blocks.push(Block::new(crate::props::c05::u_rep_single(&["a", "b"], 12), grid(&with_r, 6), "5 bases x 6x6 thresholds"));
         blocks.push(Block::new(crate::props::c05::u_rep_single(&["a", "b", "c"], 7), grid(&with_r, 4), "5 bases x 4x4 thresholds"));
